@@ -52,6 +52,9 @@ static RSTATE: AtomicU64 = AtomicU64::new(0x9E37_79B9_7F4A_7C15);
 // global op budget for the subject (spin / runaway guard). < 0 = unlimited
 pub static OPS_BUDGET: AtomicI64 = AtomicI64::new(-1);
 pub static BUDGET_HIT: AtomicU32 = AtomicU32::new(0);
+pub static OPS_COUNT: AtomicU64 = AtomicU64::new(0);
+pub static BYTES_MOVED: AtomicU64 = AtomicU64::new(0);
+pub const SPIN_SLACK: u64 = 200_000;
 pub const ABORT_ERRNO: i32 = 131; // ENOTRECOVERABLE: reserved for the monitor
 
 // post-deadline poll counter (C04)
@@ -69,6 +72,8 @@ pub fn clear() {
     }
     OPS_BUDGET.store(-1, SeqCst);
     BUDGET_HIT.store(0, SeqCst);
+    OPS_COUNT.store(0, SeqCst);
+    BYTES_MOVED.store(0, SeqCst);
     DEADLINE_VT.store(0, SeqCst);
     POLLS_AFTER_DEADLINE.store(0, SeqCst);
     MAX_POLLS_AFTER_DEADLINE.store(-1, SeqCst);
@@ -120,14 +125,16 @@ pub fn decide(kind: u16, a0: i64, count: usize) -> Decision {
     let child = ilog::IN_CHILD.load(SeqCst);
     let n = if child { CNT_CHILD[kind as usize].fetch_add(1, SeqCst) + 1 } else { CNT_PARENT[kind as usize].fetch_add(1, SeqCst) + 1 };
     if kind == k::POLL || kind == k::READ || kind == k::WRITE || kind == k::PPOLL {
-        let b = OPS_BUDGET.load(SeqCst);
-        if b >= 0 {
-            if b == 0 {
+        // spin guard (armed when OPS_BUDGET >= 0): in a correct exchange every round moves at least one byte, retires a
+        // stream or fails, so the number of calls stays within a small multiple of the bytes moved so far
+        if !child && OPS_BUDGET.load(SeqCst) >= 0 {
+            let ops = OPS_COUNT.fetch_add(1, SeqCst) + 1;
+            let bytes = BYTES_MOVED.load(SeqCst);
+            if ops > 8 * bytes + SPIN_SLACK {
                 BUDGET_HIT.fetch_add(1, SeqCst);
                 d.fail = ABORT_ERRNO;
                 return d;
             }
-            OPS_BUDGET.store(b - 1, SeqCst);
         }
         if kind == k::POLL {
             let dl = DEADLINE_VT.load(SeqCst);
